@@ -1269,3 +1269,31 @@ package runtime
 //@   ensures reg.IsCell() ==> fresh(c.cells[reg.Idx()].ref) && *c.cells[reg.Idx()].ref == NilValue
 //@   ensures reg.IsCell() ==> forall(j, 0, len(c.cells), j != int(reg.Idx()) ==> c.cells[j] == old(c.cells[j]))
 //@   ensures !reg.IsCell() ==> c.registers[reg.Idx()] == NilValue
+
+// Argument access of Go functions (C04): Arg and the typed accessors index the
+// slots unchecked, so the index must be below the number of slots.
+//@ func (*GoCont).Arg
+//@   prop C04
+//@   arith int
+//@   requires c != nil && 0 <= n && n < len(c.args)
+//@   modifies nothing
+//@   ensures result0 == c.args[n]
+
+//@ func (*GoCont).IntArg
+//@   prop C04
+//@   arith int
+//@   requires c != nil && 0 <= n && n < len(c.args)
+//@   modifies nothing
+
+//@ func (*GoCont).StringArg
+//@   prop C04
+//@   arith int
+//@   requires c != nil && 0 <= n && n < len(c.args)
+//@   modifies nothing
+
+//@ func (*GoCont).Etc
+//@   prop C04
+//@   arith int
+//@   requires c != nil
+//@   modifies nothing
+//@   ensures c.etc == nil ==> len(result0) == 0
